@@ -611,12 +611,18 @@ func parenTransparencyRule(c *Ctx, rule, key string, f *ssa.Function, kind strin
 		return
 	}
 	fns := append([]*ssa.Function{f}, f.AnonFuncs...)
-	// in-package helpers called with an operand
+	// in-package helpers called (transitively, a few levels) with an operand
+	seenFn := map[*ssa.Function]bool{}
 	for _, g := range fns {
+		seenFn[g] = true
+	}
+	for i := 0; i < len(fns) && len(fns) < 16; i++ {
+		g := fns[i]
 		for _, b := range g.Blocks {
 			for _, in := range b.Instrs {
 				if call, ok := in.(*ssa.Call); ok {
-					if cal := call.Call.StaticCallee(); cal != nil && cal.Pkg == f.Pkg && len(cal.Blocks) > 0 && cal.Signature.Recv() == nil && len(fns) < 8 {
+					if cal := call.Call.StaticCallee(); cal != nil && cal.Pkg == f.Pkg && len(cal.Blocks) > 0 && cal.Signature.Recv() == nil && !seenFn[cal] && len(cal.Params) <= 2 {
+						seenFn[cal] = true
 						fns = append(fns, cal)
 					}
 				}
